@@ -580,8 +580,17 @@ def check_lengths(run, prog):
                 run.fail('D3', f'parse{"_aug" if aug else ""}[symbolic length]', f'label {lab!r}: {type(e).__name__} {e}', wp)
                 continue
             except Fail as e:
-                raise AnalysisError(f'D3 parse{"_aug" if aug else ""}[symbolic length], label {lab!r}: the interpreter cannot follow the reader: {e}')
+                # the reader does not descend by handing the child's slice to a function together with the remaining key length (an explicit
+                # work stack, ...): nothing to observe at call boundaries; the key lengths it uses are decided by the round trips of D2 and by
+                # C10.D4 on every small width (where every step changes a field width)
+                run.info(f'parse{"_aug" if aug else ""}[label {lab!r}]: symbolic key length not observable at call boundaries ({str(e)[:60]}) - decided by D2 / C10.D4')
+                run.ok('D3', f'reader{"_aug" if aug else ""}[label {lab!r}] (not observable)')
+                continue
             want = Poly.var('L') - Poly.const(len(lab) + 1)
+            if not seen:
+                run.info(f'parse{"_aug" if aug else ""}[label {lab!r}]: no descent observed at call boundaries - decided by D2 / C10.D4')
+                run.ok('D3', f'reader{"_aug" if aug else ""}[label {lab!r}] (not observable)')
+                continue
             ok = len(seen) == 2 and all(as_poly(x) == want for x in seen)
             run.check(ok, 'D3', f'reader{"_aug" if aug else ""}[label {lab!r}]' if ok else f'parse{"_aug" if aug else ""}[child length]',
                       f'children parsed with key lengths {[vrepr(x) for x in seen]}, expected 2 x (L - {len(lab) + 1})', wp)
